@@ -16,4 +16,17 @@ func init() {
 		Assumptions: []string{"math.Min/Max modelled by their documented special-case table (verified against the Go implementation by native trace conformance)"},
 		Outside:     []string{"member counts beyond the bound", "NaN coordinates (Bounds of NaN is unspecified)"},
 	})
+	reg(&Property{
+		ID: "C05", Pkgs: []string{"encoding/wkb", "encoding/hex"}, Level: "model_checking",
+		Rule: "one evaluation = one explored path (a geometry shape x byte order x per-element order choice) with all coordinates free 64-bit patterns; non-trivial = path ends with every assertion discharged",
+		Bounds: map[string]string{
+			"coordinates": "all 2^64 bit patterns per coordinate (NaN payloads, -0, Inf)",
+			"counts":      "0..2 members per level (thorough 0..3 for flat types), collections nested to depth 2",
+			"byte order":  "both for encode; independent per nested element for decode",
+		},
+		Assumptions: []string{
+			"encoding/binary.Read/Write modelled by contract: fixed-size values are read/written as exactly their size in the given byte order via io.ReadFull / Writer.Write (bytes.Buffer, io.ReadFull are executed from their real SSA)",
+		},
+		Outside: []string{"member counts above the bound", "encoding/binary internals"},
+	})
 }
